@@ -105,6 +105,24 @@ fn promotion_fault_cases(cell: &Cell, run: &CellRun, rep: &mut Report) {
 }
 
 fn record(cell: &Cell, rep: &mut Report) {
+    record_with(cell, false, rep)
+}
+
+fn record_with(cell: &Cell, plain_source: bool, rep: &mut Report) {
+    crate::ops::PLAIN_FILE_SOURCE.with(|p| p.set(plain_source));
+    let before = rep.violations.len();
+    record_inner(cell, rep);
+    crate::ops::PLAIN_FILE_SOURCE.with(|p| p.set(false));
+    if plain_source {
+        for v in rep.violations.iter_mut().skip(before) {
+            if let Some(o) = v.case.as_object_mut() {
+                o.insert("plain_source".into(), serde_json::json!(true));
+            }
+        }
+    }
+}
+
+fn record_inner(cell: &Cell, rep: &mut Report) {
     rep.evaluations += 1;
     rep.states += 1;
     rep.traces += 1;
@@ -126,7 +144,8 @@ fn record(cell: &Cell, rep: &mut Report) {
 pub fn run(_tier: Tier, shard: Shard, rep: &mut Report) {
     rep.rule = "the C13 and C14 matrices (every hit location, action, checker setting, populate outcome) x umask {000, 022, 077}: \
         F_GETFL access mode and lseek(SEEK_CUR) of every returned handle (judge and checker read the files they are given to the \
-        end), bytes read to the end, st_mode of every file visible under the key name in the write cache. For every cell that promotes a read-only hit, each call of the promotion additionally fails \
+        end), bytes read to the end, st_mode of every file visible under the key name in the write cache; by-path set/put additionally with sources made by \
+        File::create (mode 0666 & !umask) under umask 000/002/022/077. For every cell that promotes a read-only hit, each call of the promotion additionally fails \
         in turn (two errnos per call): a handle returned all the same must still be read-only, at offset 0 and whole. Non-trivial = \
         a handle was returned after a judge or a checker consumed it."
         .into();
@@ -136,6 +155,19 @@ pub fn run(_tier: Tier, shard: Shard, rep: &mut Report) {
     let mut all = c13::cells();
     all.extend(c14::cells().into_iter().filter(|c| c.checker != 0));
     let mut no = 0u64;
+    // by-path set/put of a file the application made with File::create: its mode is 0666 & !umask
+    for cell in all.iter().filter(|c| matches!(c.op, MOp::Set | MOp::Put) && c.has_writer() && c.readers.len() <= 1) {
+        for umask in [0o000u32, 0o002, 0o022, 0o077] {
+            no += 1;
+            if !shard.mine(no) {
+                continue;
+            }
+            let mut c = cell.clone();
+            c.umask = umask;
+            record_with(&c, true, rep);
+            rep.count("plain_file_source_cells", 1);
+        }
+    }
     for cell in &all {
         for umask in [0o000u32, 0o022, 0o077] {
             no += 1;
@@ -155,5 +187,6 @@ pub fn run(_tier: Tier, shard: Shard, rep: &mut Report) {
 
 pub fn replay(case: &Value, rep: &mut Report) {
     let cell = case.get("cell").unwrap_or(case);
-    record(&Cell::from_json(cell), rep);
+    let plain = cell.get("plain_source").and_then(|v| v.as_bool()).unwrap_or(false);
+    record_with(&Cell::from_json(cell), plain, rep);
 }
